@@ -24,7 +24,7 @@ TIMEOUT = {"quick": 900, "thorough": 5400}
 ASSUMPTIONS = ["zeta strictly inside (0,1); breakpoint intervals narrower than 1e-9 are skipped and their width added to the tolerance",
                "multi-rank behaviour observed over vlib.fakempi (thread communicator), equal partitions",
                "total weight > 0 (a population with zero total weight has no defined comb)"]
-REQUIRED_COUNTERS = {"comb_calls": 500, "rank_runs": 10, "distinct_arrival_orders": 4, "contract_comb_postcondition": 10}
+REQUIRED_COUNTERS = {"comb_calls": 500, "rank_runs": 10, "distinct_arrival_orders": 4, "contract_comb_postcondition": 10, "mpi_driver_reconfigurations": 3}
 PATTERNS = ["ones", "random", "zeros", "signs", "decades", "dominant", "single", "tiny", "ties"]
 
 
@@ -91,6 +91,10 @@ def gen_cases(tier, seed):
                                       "group": "ranks-%d-%d-%s" % (R, npr, cont), "cost": 2})
     for wt, ad in (("rhf", None), ("uhf", "reverse")) if q else (("rhf", None), ("uhf", "reverse"), ("uhf", None), ("rhf", "forward")):
         cases.append({"type": "driver", "wt": wt, "ad_mode": ad, "s": int(rng.integers(1 << 30)), "group": "drv-%s-%s" % (wt, ad), "cost": 40})
+    # the real driver split over R thread-ranks: every global reconfiguration it performs is compared with the serial comb
+    for R in ((2,) if q else (2, 3, 4, 2)):
+        for wt in (("uhf",) if q else ("rhf", "uhf")):
+            cases.append({"type": "mpi_driver", "R": R, "wt": wt, "s": int(rng.integers(1 << 30)), "group": "mpidrv-%d-%s-%d" % (R, wt, len(cases)), "cost": 80})
     return cases
 
 
@@ -359,7 +363,134 @@ def run_ranks(case):
             "counters": {"rank_runs": nrep, "distinct_arrival_orders": len(sigs) if R > 1 else 0}}
 
 
+def run_mpi_driver(case):
+    """driver.afqmc on R threads over vlib.fakempi; sr.stochastic_reconfiguration_mpi(_uhf) is wrapped to record every rank's
+    input / output; offline checker: concatenated outputs == serial comb of the rank-ordered concatenated inputs with rank 0's offset"""
+    import contextlib
+    import io
+    import os
+    import shutil
+    import tempfile
+    import threading
+
+    import jax.numpy as jnp
+
+    from ad_afqmc import driver, hamiltonian, propagation, sampling, sr, wavefunctions
+    from checks.c08 import _converged_system
+    from vlib import fakempi, trials
+
+    R, wt = case["R"], case["wt"]
+    rng = np.random.default_rng(case["s"])
+    nw, dt, norb = 4, 0.03, 4
+    kind, ne, ham_t, Cs = _converged_system(wt, rng, nw, dt, None)
+    h0, h1, chol = ham_t
+    records = []
+    lock = threading.Lock()
+    seq = {}
+    saved = {}
+
+    def make_logged(name):
+        orig = getattr(sr, name)
+        saved[name] = orig
+
+        def logged(walkers, weights, zeta, comm):
+            r = comm.Get_rank()
+            w_in = [np.array(walkers[0]), np.array(walkers[1])] if isinstance(walkers, list) else np.array(walkers)
+            wt_in = np.array(weights)
+            out_w, out_wt = orig(list(walkers) if isinstance(walkers, list) else walkers, weights, zeta, comm)
+            w_out = [np.array(out_w[0]), np.array(out_w[1])] if isinstance(out_w, list) else np.array(out_w)
+            with lock:
+                k = seq.get(r, 0)
+                seq[r] = k + 1
+                records.append({"rank": r, "seq": k, "w_in": w_in, "wt_in": wt_in, "zeta": float(zeta), "w_out": w_out, "wt_out": np.array(out_wt)})
+            return out_w, out_wt
+
+        setattr(sr, name, logged)
+
+    for nm in ("stochastic_reconfiguration_mpi", "stochastic_reconfiguration_mpi_uhf"):
+        make_logged(nm)
+    nblocks = 3
+    energies = {}
+
+    def rank_main(comm):
+        if kind == "rhf":
+            trial = wavefunctions.rhf(norb, ne)
+            wd = {"mo_coeff": jnp.array(Cs)}
+            prop = propagation.propagator_restricted(dt=dt, n_walkers=nw)
+        else:
+            trial = wavefunctions.uhf(norb, ne)
+            wd = {"mo_coeff": [jnp.array(Cs[0]), jnp.array(Cs[1])]}
+            prop = propagation.propagator_unrestricted(dt=dt, n_walkers=nw)
+        ham = hamiltonian.hamiltonian(norb)
+        hd = trials.ham_data_of(h0, h1, chol)
+        smp = sampling.sampler(n_prop_steps=3, n_ene_blocks=1, n_sr_blocks=1, n_blocks=nblocks)
+        options = {"dt": dt, "n_walkers": nw, "n_prop_steps": 3, "n_ene_blocks": 1, "n_sr_blocks": 1, "n_blocks": nblocks, "n_ene_blocks_eql": 1, "n_sr_blocks_eql": 1,
+                   "n_eql": 1, "seed": case["s"] % 65521, "ad_mode": None, "orbital_rotation": True, "do_sr": True, "walker_type": wt, "symmetry": False,
+                   "save_walkers": False, "trial": kind, "ene0": 0.0, "free_projection": False, "n_batch": 1}
+        e, err = driver.afqmc(hd, ham, prop, trial, wd, smp, None, options, fakempi.FakeMPI(comm))
+        energies[comm.Get_rank()] = e
+        return e
+
+    cwd0 = os.getcwd()
+    tmp = tempfile.mkdtemp(prefix="verif_mpidrv_")
+    os.chdir(tmp)
+    buf = io.StringIO()
+    try:
+        with contextlib.redirect_stdout(buf):
+            results, world = fakempi.run_ranks(R, rank_main, seed=case["s"], max_delay=0.003)
+    finally:
+        for nm, f in saved.items():
+            setattr(sr, nm, f)
+        os.chdir(cwd0)
+        shutil.rmtree(tmp, ignore_errors=True)
+    events = []
+    key = "C07/mpi-driver/%s" % wt
+    errs = [e for e in world.errors if e is not None]
+    if errs:
+        events.append(ev("mpi-driver/completed", False, key=key + "/exception", exc=repr(errs[0])[:400]))
+        return {"events": events, "nontrivial": True, "counters": {"mpi_driver_reconfigurations": 0}}
+    okc, per_rank = fakempi.collectives_consistent(world)
+    events.append(ev("mpi-driver/collectives-matched", bool(okc), key=key + "/collectives-matched", n_collectives=len(per_rank.get(0, []))))
+    events.append(ev("mpi-driver/all-ranks-return-same-energy", bool(len({float(v) for v in energies.values()}) == 1), key=key + "/energy-broadcast",
+                     energies={str(k): float(v) for k, v in energies.items()}))
+    ncalls = min(seq.values()) if seq else 0
+    n_ok = 0
+    for k in range(ncalls):
+        recs = sorted([r for r in records if r["seq"] == k], key=lambda r: r["rank"])
+        if len(recs) != R:
+            events.append(ev("mpi-driver/every-rank-reconfigures", False, key=key + "/missing-rank-call", call=k))
+            continue
+        uhf = isinstance(recs[0]["w_in"], list)
+        w_in = np.concatenate([r["wt_in"] for r in recs])
+        zeta0 = recs[0]["zeta"]
+        n = w_in.size
+        ref, avg = comb_model(np.abs(w_in), zeta0)
+        bps_d = np.min(np.abs(np.mod(n * np.cumsum(np.abs(w_in)) / np.abs(w_in).sum(), 1.0) - zeta0))
+        wt_out = np.concatenate([r["wt_out"] for r in recs])
+        ok_w = bool(np.all(wt_out == wt_out[0]) and abs(n * wt_out[0] - np.abs(w_in).sum()) <= 1e-12 * np.abs(w_in).sum())
+        events.append(ev("mpi-driver/weights-equal-and-conserved", ok_w, key=key + "/weights", call=k))
+        if bps_d > 1e-9:
+            if uhf:
+                a_in = [np.concatenate([r["w_in"][s_] for r in recs]) for s_ in range(2)]
+                a_out = [np.concatenate([r["w_out"][s_] for r in recs]) for s_ in range(2)]
+                same = all(np.array_equal(a_in[s_][ref], a_out[s_]) for s_ in range(2))
+            else:
+                a_in = np.concatenate([r["w_in"] for r in recs])
+                a_out = np.concatenate([r["w_out"] for r in recs])
+                same = np.array_equal(a_in[ref], a_out)
+            events.append(ev("mpi-driver/equals-serial-comb-of-rank-ordered-population", bool(same), key=key + "/equals-serial-comb", call=k, R=R, zeta_root=zeta0,
+                             zetas=[r["zeta"] for r in recs]))
+            n_ok += int(same)
+    return {"events": events, "nontrivial": ncalls > 0,
+            "sample": {"R": R, "walker_type": wt, "reconfigurations": ncalls, "collectives_per_rank": len(per_rank.get(0, [])),
+                       "distinct_arrival_orders_within_run": len(set(tuple(v) for v in world.arrivals.values())), "energy": float(list(energies.values())[0])},
+            "counters": {"mpi_driver_reconfigurations": ncalls, "mpi_driver_collectives": len(world.log),
+                         "mpi_driver_arrival_orders": len(set(tuple(v) for v in world.arrivals.values()))}}
+
+
 def run_case(case):
+    if case["type"] == "mpi_driver":
+        return run_mpi_driver(case)
     if case["type"] == "driver":
         from vlib import contracts
 
